@@ -12,8 +12,8 @@ use std::collections::VecDeque;
 pub struct Report {
     /// largest response time of a completed job per task
     pub max_resp: Vec<u64>,
-    /// age of the oldest job still pending at the end of the trace
-    pub pending_age: Vec<u64>,
+    /// age of the oldest job still pending at the end of the trace (None: nothing pending)
+    pub pending_age: Vec<Option<u64>>,
     /// releases respect the library's number_arrivals in every window
     pub eta_ok: bool,
     /// violations of the platform rules (must be empty, otherwise the *model* is wrong)
@@ -23,7 +23,12 @@ pub struct Report {
 impl Report {
     /// largest response time (completed or still pending) observed for `task`
     pub fn worst(&self, task: usize) -> u64 {
-        self.max_resp[task].max(self.pending_age[task])
+        self.max_resp[task].max(self.pending_age[task].unwrap_or(0))
+    }
+    /// does the trace show a response time larger than `bound` for `task`?  (a completed job
+    /// with a larger response time, or a job still pending `bound` ticks after its release)
+    pub fn exceeds(&self, task: usize, bound: u64) -> bool {
+        self.max_resp[task] > bound || self.pending_age[task].map(|a| a >= bound).unwrap_or(false)
     }
 }
 
@@ -52,7 +57,7 @@ pub fn check_uni(spec: &UniSpec, ticks: &[Tick]) -> Report {
     let n = spec.tasks.len();
     let mut rep = Report {
         max_resp: vec![0; n],
-        pending_age: vec![0; n],
+        pending_age: vec![None; n],
         eta_ok: true,
         problems: vec![],
     };
@@ -202,7 +207,7 @@ pub fn check_uni(spec: &UniSpec, ticks: &[Tick]) -> Report {
     let tend = ticks.len() as u64;
     for i in 0..n {
         if let Some(j) = queues[i].front() {
-            rep.pending_age[i] = tend - j.release;
+            rep.pending_age[i] = Some(tend - j.release);
         }
         if !eta_compliant(&spec.tasks[i].arr, &rel_times[i]) {
             rep.eta_ok = false;
@@ -215,7 +220,7 @@ pub fn check_exec(spec: &ExecSpec, init_res: (u8, u8), ticks: &[Tick]) -> Report
     let n = spec.cbs.len();
     let mut rep = Report {
         max_resp: vec![0; n],
-        pending_age: vec![0; n],
+        pending_age: vec![None; n],
         eta_ok: true,
         problems: vec![],
     };
@@ -340,7 +345,7 @@ pub fn check_exec(spec: &ExecSpec, init_res: (u8, u8), ticks: &[Tick]) -> Report
     }
     for i in 0..n {
         if let Some(src) = queues[i].first() {
-            rep.pending_age[i] = tend - src;
+            rep.pending_age[i] = Some(tend - src);
         }
         if let Some(a) = &spec.cbs[i].arr {
             if !eta_compliant(a, &rel_times[i]) {
